@@ -1230,3 +1230,36 @@ package scipipe
 //@   loop 0 invariant items: forall k string :: $visited[k] && old(chanRecvN(p.inParamPorts[k].Chan)) < chanTotal(p.inParamPorts[k].Chan) ==> k in params && params[k] == chanInAt(p.inParamPorts[k].Chan, old(chanRecvN(p.inParamPorts[k].Chan)))
 //@   loop 0 invariant only-ports: forall k string :: k in params ==> $visited[k]
 //@   loop 0 invariant others: forall c chan string :: !fresh(c) && !isInParamChan(p.inParamPorts, c) ==> chanRecvN(c) == old(chanRecvN(c)) && chanRecvA(c) == old(chanRecvA(c))
+
+// ---------------------------------------------------------------------------
+// ip.go: creating IPs (C09 invalid output path, C02/C11 audit record of existing files)
+// ---------------------------------------------------------------------------
+
+//@ func pathIsValid(path) (res, err)
+//@   props C09
+//@   ensures def: err == nil && (res <==> validPath(path))
+
+//@ func NewBaseIP(path) (res)
+//@   props C09
+//@   modifies fresh
+//@   ensures fresh: res != nil && fresh(res) && res.path == path && res.auditInfo == nil
+
+//@ func NewInPort(name) (inp)
+//@   props C04
+//@   trusted reads SCIPIPE_BUFSIZE via getBufsize (os.LookupEnv, strconv); only freshness and emptiness of the new port are relied upon
+//@   modifies fresh
+//@   ensures fresh: inp != nil && fresh(inp) && inp.Chan != nil && fresh(inp.Chan) && inp.RemotePorts != nil && fresh(inp.RemotePorts) && len(inp.RemotePorts) == 0 && !inp.ready && inp.name == name
+//@   ensures empty-channel: chanSentN(inp.Chan) == 0 && chanRecvN(inp.Chan) == 0 && !chanClosed(inp.Chan)
+
+//@ func (*FileIP).Exists(ip) (exists)
+//@   props C02
+//@   modifies locked
+//@   ensures def: exists <==> statOK(fsEpoch, ip.path)
+
+//@ func NewFileIP(path) (res, err)
+//@   props C02 C09 C11
+//@   modifies fresh, locked
+//@   ensures invalid-path-is-an-error[C09]: (err == nil) <==> validPath(path)
+//@   ensures fresh: err == nil ==> res != nil && fresh(res) && res.path == path && !res.doStream && res.SubStream != nil && fresh(res.SubStream) && res.lock != nil
+//@   ensures existing-file-carries-its-record[C02,C11]: err == nil && statOK(fsEpoch, path) ==> res.auditInfo == loadedAudit(path + ".audit.json", fsEpoch)
+//@   ensures no-effects: effCreated == old(effCreated) && effMkdir == old(effMkdir) && effRenamed == old(effRenamed) && effRemoved == old(effRemoved) && effExec == old(effExec)
